@@ -717,8 +717,11 @@ class Type3Tag(nfc.tag.Tag):
             if type(error) is nfc.clf.ProtocolError:  # pragma: no branch
                 raise Type3TagCommandError(nfc.tag.PROTOCOL_ERROR)
 
-        if rsp[0] != len(rsp):
-            log.debug("incorrect response length {0:02x}".format(rsp[0]))
+        if len(rsp) < 2 or rsp[0] != len(rsp):
+            log.debug("incorrect response length {0}".format(len(rsp)))
+            raise Type3TagCommandError(RSP_LENGTH_ERROR)
+        if send_idm and len(rsp) < (12 if check_status else 10):
+            log.debug("insufficient response length {0}".format(len(rsp)))
             raise Type3TagCommandError(RSP_LENGTH_ERROR)
         if rsp[1] != cmd_code + 1:
             log.debug("incorrect response code {0:02x}".format(rsp[1]))
